@@ -150,12 +150,14 @@ def dict_build_order(ctx, mod, cls, fn, attrs):
                  "detail": "anchor function vanished", "loc": mod}]
     found = set()
     for n in ast.walk(fi.node):
-        if isinstance(n, ast.For):
+        # a for statement or a comprehension generator: both have .iter
+        if isinstance(n, (ast.For, ast.comprehension)):
             it = n.iter
             base = it
-            if isinstance(it, ast.Call) and isinstance(it.func, ast.Name) \
-                    and it.func.id in ("zip", "enumerate") and it.args:
-                base = it.args[0]
+            while isinstance(base, ast.Call) and isinstance(base.func, ast.Name) \
+                    and base.func.id in ("zip", "enumerate", "list", "tuple", "iter", "set",
+                                         "frozenset", "sorted", "reversed") and base.args:
+                base = base.args[0]
             if isinstance(base, ast.Attribute) and base.attr in attrs:
                 found.add(base.attr)
                 k = ot.kind(fi, it)
@@ -164,10 +166,11 @@ def dict_build_order(ctx, mod, cls, fn, attrs):
                 out.append({"construct": f"{cls}.{fn}: per-host {base.attr} dict is filled by "
                             f"iterating self.{base.attr} (an ordered list)", "ok": ok,
                             "detail": f"iteration kind {k}, attribute kind {k2}",
-                            "loc": f"{fi.module.path}:{n.lineno}"})
+                            "loc": f"{fi.module.path}:{getattr(n, 'lineno', it.lineno)}"})
     for a in attrs:
         if a not in found:
             out.append({"construct": f"{cls}.{fn}: loop over self.{a} building the per-host dict",
-                        "ok": False, "detail": "no such loop found (recognised forms: for x in "
-                        "self.<attr> / zip(self.<attr>, ...))", "loc": fi.module.path})
+                        "ok": None, "detail": "no iteration over the attribute found (recognised: "
+                        "for statements and comprehension generators over self.<attr>, possibly "
+                        "inside zip/enumerate/list)", "loc": fi.module.path})
     return out
